@@ -112,4 +112,25 @@ TEXTS = {
           "written from the wrong source still counts as written.",
   "technique": "struct-field read/write coverage + interface accessor coverage over a static call closure (go/types)",
  },
+ "C18": {
+  "text": "Decides the frame condition and pairing of managed mode from the code of bufimagemodify: effect whitelist — every store through a descriptorpb message targets a FileOptions "
+          "field that has a modifier, FieldOptions.Jstype, a nil Options pointer replaced by an empty literal under an == nil test, or SourceCodeInfo.Location, and no reflective "
+          "mutator is referenced; path↔field agreement — per modifier the getter/setter/is-set closures name one FileOptions field F, the source path is {8, n} with n the protobuf "
+          "number of F read from the generated struct tag, and the bufconfig.FileOption constant names F (js_type likewise); every FileOption constant has a modifier and every "
+          "modifier is in Modify's list; in each generic modifier the setter and sweeper.Mark lie on exactly the same paths; modifiers sit behind the Enabled() early return and the "
+          "datawkt.Exists skip, the setter is unreachable from the disabled edge, a non-nil override replaces the default before the setter, and no override loop breaks early "
+          "(last match wins). Quantifies over every combination of rules at once; tests enumerate options one at a time.",
+  "note": "Not decided: the default-value formulas (java_package/go_package derivation etc.) and the matching predicates of disable/override rules (path/module/field matching).",
+  "technique": "effect whitelist over assignments + struct-tag/table agreement + CFG pairing (go/types, go/cfg)",
+ },
+ "C19": {
+  "text": "Decides the code-shape conditions of non-leakage: the Authorization header is written only by NewAuthorizationInterceptorProvider (user-header forwarders listed); RemoteToken "
+          "is asked for the provider closure's own address parameter (SSA origin through closure bindings) and connectclient.Make passes its un-mapped address parameter to the "
+          "auth interceptor provider before any mapping; every TokenProvider implementation uses the address only as a map key, ==/!= operand or netrc machine name (never "
+          "prefix/suffix/contains/regexp/slicing; the single-token provider ignores it by documented design); the header Set is unreachable from itself and guarded by a non-empty "
+          "token (first source wins, once); parsers return a nil provider with every error, publish the map only after the loop and reject repeated addresses; netrc looks up the "
+          "exact machine then only \"default\".",
+  "note": "Not decided: HTTP-level behaviour (redirects, proxies, connection reuse) and the netrc library's own matching.",
+  "technique": "who-may-reference + SSA value provenance + use-site classification of a parameter",
+ },
 }
